@@ -35,7 +35,7 @@ SCALAR_TOKENS = ["0", "a", "", "-", "length", "1", "é"]
 
 def plan(tier, seed):
     n = 15 if tier == "quick" else 46
-    return [{"n": 110 if tier == "quick" else 700} for _ in range(n)]
+    return [{"kind": "scale"}] + [{"n": 110 if tier == "quick" else 700} for _ in range(n)]
 
 
 def tclass(t):
@@ -233,7 +233,39 @@ def key_variants(k):
     return out
 
 
+def run_scale(ctx):
+    """Pointers far into long arrays and far down deep documents; indices on either side of the length."""
+    for n in (9, 10, 11, 100, 1000, 16384, 65537):
+        doc = {"a": list(range(n)), "nest": [[i] for i in range(min(n, 300))]}
+        for i in (0, 9, 10, n // 2, n - 2, n - 1):
+            if 0 <= i < n:
+                check_existing(ctx, doc, ("a", i), i)
+        for t in (str(n), str(n + 1), str(n * 10), "-", "0" + str(n - 1), str(n - 1) + " ", "+" + str(n - 1)):
+            try:
+                rp.resolve(doc, ["a", t])
+            except rp.Unresolvable as e:
+                check_unevaluable(ctx, doc, ["a", t], str(e))
+        ctx.cell("scale", "length=%d" % n)
+    for depth in (50, 100, 101, 150, 300):
+        v = "bottom"
+        loc = []
+        for i in range(depth):
+            if i % 2:
+                v = {"c": v}
+                loc.insert(0, "c")
+            else:
+                v = [0, v]
+                loc.insert(0, 1)
+        check_existing(ctx, v, tuple(loc), "bottom")
+        check_unevaluable(ctx, v, [str(x) for x in loc] + ["x"], "token below a scalar")
+        check_unevaluable(ctx, v, [str(x) for x in loc[:-1]] + ["zz" if isinstance(loc[-1], str) else "2"], "missing at the bottom")
+        ctx.cell("scale", "depth=%d" % depth)
+
+
 def run(spec, ctx):
+    if spec.get("kind") == "scale":
+        run_scale(ctx)
+        return
     r = ctx.rng
     names = [n for n in gen.ALL_NAMES if not re.fullmatch(r"[0-9]{16,}", n)]
     for i in range(spec["n"]):
